@@ -633,7 +633,7 @@ def oracle_consent(evs, meta):
                 if failed_t is None or failed_t > t403 + 5:
                     return "agent %d got an authenticated 403 on its selected pair at t=%d but announced FAILED at %s" % (x, t403, failed_t)
             elif failed_t is not None:
-                prior = [a for a in ans if a <= failed_t]
+                prior = [a for a in ans if a < failed_t]      # (an answer due in the very millisecond of the expiry races with the timer: either order is legal)
                 L = max(prior) if prior else first_ka
                 if L is None or not (L + 30000 < failed_t + 1 and failed_t <= L + 30000 + 6000 + SLACK):
                     return "agent %d announced FAILED at t=%d but the last answer on its selected pair arrived at t=%s (consent timeout 30000 ms)" % (x, failed_t, L)
